@@ -341,6 +341,13 @@ def run_property(prop, tier='quick', explain=None):
         fatal = str(e)
         rep.fail('R0', 'facts', REPO, 'fact extraction failed, nothing could be analysed: ' + fatal[:1500],
                  reason='facts-missing')
+    except Exception as e:  # noqa: fail closed, never crash
+        import traceback
+        tb = traceback.format_exc()
+        sys.stderr.write(tb)
+        rep.fail('R0', 'rule-engine-error', 'pk/rules/%s.py' % prop,
+                 'the rule engine raised %s on this tree (a shape it does not recognise): %s' % (type(e).__name__, tb[-800:]),
+                 reason='undecidable-shape')
     known = load_known()
     known_keys = {k['key']: k for k in known.get('known', [])}
     os.makedirs(os.path.join(VERIF, 'out', 'violations'), exist_ok=True)
